@@ -46,5 +46,7 @@ if __name__ == "__main__":
     print(table(os.path.join(base, "seeded", "results.json"), os.path.join(V, "seeded")))
     print("#### Own targeted mutants (selftest/mutants)\n")
     print(table(os.path.join(base, "selftest", "results.json"), os.path.join(V, "selftest", "mutants")))
-    print("#### Behaviour-preserving refactors (selftest/benign) — checks must stay silent\n")
+    print("#### Behaviour-preserving refactors, own (selftest/benign) — checks must stay silent\n")
     print(table(os.path.join(base, "selftest", "benign-results.json"), os.path.join(V, "selftest", "benign"), benign=True))
+    print("#### Behaviour-preserving refactors, independent sub-agents (selftest/benign-indep) — checks must stay silent\n")
+    print(table(os.path.join(base, "selftest", "benign-indep-results.json"), os.path.join(V, "selftest", "benign-indep"), benign=True))
